@@ -62,6 +62,11 @@ func (p *Parser) nextToken() error {
 
 	token, err := p.lexer.NextToken()
 	if err != nil {
+		// A token that cannot be read ends the input as far as the parser is
+		// concerned. Leaving the previous lookahead in place would make every
+		// caller that advances without checking the error see the same token
+		// forever (unbounded recursion on "[>", endless loop on "<</A >").
+		p.peekToken = &Token{Type: TokenEOF}
 		return err
 	}
 	p.peekToken = token
@@ -297,6 +302,10 @@ func (p *Parser) ParseIndirectObject() (*IndirectObject, error) {
 		return nil, err
 	}
 
+	if p.currentToken == nil {
+		return nil, fmt.Errorf("unexpected end of input")
+	}
+
 	// Parse object number
 	if p.currentToken.Type != TokenInteger {
 		return nil, fmt.Errorf("expected object number, got %v", p.currentToken.Type)
@@ -309,7 +318,7 @@ func (p *Parser) ParseIndirectObject() (*IndirectObject, error) {
 	p.nextToken()
 
 	// Parse generation number
-	if p.currentToken.Type != TokenInteger {
+	if p.currentToken == nil || p.currentToken.Type != TokenInteger {
 		return nil, fmt.Errorf("expected generation number, got %v", p.currentToken.Type)
 	}
 	genStr := string(p.currentToken.Value)
@@ -320,7 +329,7 @@ func (p *Parser) ParseIndirectObject() (*IndirectObject, error) {
 	p.nextToken()
 
 	// Parse 'obj' keyword
-	if p.currentToken.Type != TokenKeyword || string(p.currentToken.Value) != "obj" {
+	if p.currentToken == nil || p.currentToken.Type != TokenKeyword || string(p.currentToken.Value) != "obj" {
 		return nil, fmt.Errorf("expected 'obj' keyword, got %v", p.currentToken)
 	}
 	p.nextToken()
@@ -329,6 +338,10 @@ func (p *Parser) ParseIndirectObject() (*IndirectObject, error) {
 	obj, err := p.ParseObject()
 	if err != nil {
 		return nil, fmt.Errorf("error parsing indirect object value: %w", err)
+	}
+
+	if p.currentToken == nil {
+		return nil, fmt.Errorf("unexpected end of input after object value")
 	}
 
 	// Check for stream
@@ -346,7 +359,7 @@ func (p *Parser) ParseIndirectObject() (*IndirectObject, error) {
 	}
 
 	// Parse 'endobj' keyword
-	if p.currentToken.Type != TokenKeyword || string(p.currentToken.Value) != "endobj" {
+	if p.currentToken == nil || p.currentToken.Type != TokenKeyword || string(p.currentToken.Value) != "endobj" {
 		return nil, fmt.Errorf("expected 'endobj' keyword, got %v", p.currentToken)
 	}
 	p.nextToken()
